@@ -16,6 +16,7 @@ import (
 	"runtime"
 	"sort"
 	"strings"
+	"sync"
 	"testing"
 	"time"
 
@@ -37,6 +38,10 @@ func sockConfigs(thorough bool) []config {
 	if thorough {
 		b, b0 = 2, 1
 	}
+	nsBulk := 0
+	if thorough {
+		nsBulk = 1
+	}
 	cs := []config{
 		{Name: "tcp/1-sender", Kind: "tcp", Senders: 1, NS: 2, NR: 2, MaxW: 2, MaxR: 2, Cap: 100, SAbort: true, RAbort: true, Budget: b, ToMs: 25, WToMs: 2000},
 		{Name: "tcp/1-sender/blocked-read", Kind: "tcp", Senders: 1, NS: 2, NR: 2, MaxW: 2, MaxR: 2, Cap: 100, SAbort: true, RAbort: true, Blocked: true, Budget: b, ToMs: 3000, WToMs: 3000},
@@ -45,11 +50,15 @@ func sockConfigs(thorough bool) []config {
 		{Name: "tcp/slow-receiver-length", Kind: "tcp", Senders: 1, NS: 3, NR: 1, MaxW: 2, MaxR: 2, Cap: 1, SAbort: false, RAbort: true, Len: true, Budget: b0, ToMs: 25, WToMs: 150},
 		{Name: "tcp/2-senders", Kind: "tcp", Senders: 2, NS: 1, NR: 2, MaxW: 2, MaxR: 2, Cap: 100, SAbort: true, RAbort: true, Budget: b, ToMs: 25, WToMs: 2000},
 		{Name: "tcp/2-senders/blocked-read", Kind: "tcp", Senders: 2, NS: 1, NR: 2, MaxW: 2, MaxR: 2, Cap: 100, SAbort: true, RAbort: true, Blocked: true, Budget: b, ToMs: 3000, WToMs: 3000},
+		// the commit acknowledgement is sent but reaches the sender only after its timeout (byte relay, nothing dropped)
+		{Name: "tcp/late-commit-ack", Kind: "tcp", Senders: 1, NS: 2, NR: 2, MaxW: 2, MaxR: 2, Cap: 100, SAbort: true, RAbort: true, Relay: true, Budget: b, ToMs: 25, WToMs: 150},
 		{Name: "tcp/late-receiver", Kind: "tcp", Senders: 1, NS: 2, NR: 1, MaxW: 1, MaxR: 2, Cap: 100, SAbort: true, RAbort: true, Late: true, Budget: b, ToMs: 25, WToMs: 2000},
 		{Name: "relaxed/1-sender", Kind: "relaxed", Senders: 1, NS: 2, NR: 2, MaxW: 2, MaxR: 2, Cap: 100, RAbort: true, Budget: b, ToMs: 25, WToMs: 2000},
 		{Name: "relaxed/1-sender/blocked-read", Kind: "relaxed", Senders: 1, NS: 2, NR: 2, MaxW: 2, MaxR: 2, Cap: 100, RAbort: true, Blocked: true, Budget: b, ToMs: 3000, WToMs: 3000},
 		{Name: "relaxed/length", Kind: "relaxed", Senders: 1, NS: 2, NR: 2, MaxW: 2, MaxR: 2, Cap: 100, RAbort: true, Len: true, Budget: b0, ToMs: 25, WToMs: 2000},
 		{Name: "relaxed/slow-receiver", Kind: "relaxed", Senders: 1, NS: 3, NR: 2, MaxW: 1, MaxR: 2, Cap: 1, RAbort: true, Len: true, Budget: b0, ToMs: 25, WToMs: 2000},
+		// stopped receiver until a WriteValue times out on the full connection (64 KiB messages), then the retry
+		{Name: "relaxed/bulk-write-timeout", Kind: "relaxed", Senders: 1, NS: nsBulk, NR: 1, MaxW: 1, MaxR: 1, Cap: 1, RAbort: true, Bulk: 400, PadKB: 64, Budget: b0, ToMs: 50, WToMs: 300},
 		{Name: "relaxed/2-senders", Kind: "relaxed", Senders: 2, NS: 1, NR: 2, MaxW: 2, MaxR: 2, Cap: 100, RAbort: true, Budget: b, ToMs: 25, WToMs: 2000},
 	}
 	if thorough {
@@ -144,6 +153,8 @@ func TestCheck(t *testing.T) {
 			"no connection failure is injected (out of scope by the statement); timeouts are real for the socket kinds and virtual (synctest) for the Go-channel kinds",
 			"operations are issued by one driver exactly as MPCalContext.Run issues them (Index, Read/WriteValue, PreCommit of all, Commit of all / Abort of all); goroutine interleavings inside handleConn are not controlled",
 			"a Commit that does not return within three write timeouts while nobody reads stays in flight and the receiver goes on (back-pressure during Commit); after the drain every Commit must have returned and the per-link oracle must hold; slow-receiver configurations also have one explicit move during which nobody reads for 2.5 write timeouts",
+			"tcp/late-commit-ack: a byte relay between sender and receiver holds the commit acknowledgement (and nothing else) until the sender has timed out, closed and redialed; a duplicate gets the key tcp/duplicated-after-late-commit-ack only if the relay's log shows exactly that (ack was sent and held, sender closed, new connection) for the section the duplicated message belongs to - otherwise tcp/duplicated",
+			"relaxed/bulk-write-timeout: one macro move commits one-message sections of 64 KiB while nobody reads until a WriteValue times out; an out-of-order arrival gets the key relaxed/reordered-after-write-timeout only if the accessor showed that the sender closed its connection at the timeout and, after reading everything, nothing is lost or duplicated and only messages written after the timeout overtake messages written before it - otherwise relaxed/lost-or-reordered",
 			"socket kinds: after every acknowledged send the driver waits (accessor) until it is visible at the receiver; an acknowledged send that is not visible after 12 s, six times in a row, is reported as lost",
 			"an abort answered by the implementation where the model sees a deliverable message is accepted for the socket kinds (a timer may win under load) and counted as spurious_aborts; in bubbles time is virtual and it is not accepted",
 			"CustomInChan's timeout default TRUE is its documented timeout answer, not a message",
@@ -207,28 +218,45 @@ func TestCheck(t *testing.T) {
 			}
 		}
 
-		// Go-channel kinds run in bubbles (microseconds each), socket kinds in real time.  Every configuration may use
-		// twice its fair share of the time that is left, so that one large tree cannot starve the configurations after it.
-		all := append(bubbleConfigs(env.Thorough()), sockConfigs(env.Thorough())...)
+		// Go-channel kinds run in bubbles (microseconds each, CPU bound), socket kinds in real time (they mostly wait for
+		// timeouts and acknowledgements): the two lists are worked through side by side.  Within a list every configuration
+		// may use twice its fair share of the time that is left, so that one large tree cannot starve those after it.
 		end := env.Deadline.Add(-15 * time.Second)
-		for i := range all {
-			cfg := all[i]
-			if f := os.Getenv("C06_ONLY"); f != "" && !strings.Contains(cfg.Name, f) {
-				continue
+		var addMu sync.Mutex
+		runList := func(all []config, sock bool) {
+			for i := range all {
+				cfg := all[i]
+				if f := os.Getenv("C06_ONLY"); f != "" && !strings.Contains(cfg.Name, f) {
+					continue
+				}
+				dl := time.Now().Add(2 * time.Until(end) / time.Duration(len(all)-i))
+				if dl.After(end) {
+					dl = end
+				}
+				var st *explore.Stats
+				if sock {
+					sw := env.Workers * 3
+					if sw < 12 {
+						sw = 12
+					}
+					if sw > 32 {
+						sw = 32
+					}
+					st = explore.Run(sockBody(&cfg), explore.Options{Budget: cfg.Budget, Workers: sw, Deadline: dl, Samples: 1,
+						Setup: func(w int) any { return &worker{ip: procIP(w + 1), port: 20000 + (w*131)%1000} }})
+				} else {
+					st = explore.Run(bubbleBody(t, &cfg), explore.Options{Budget: cfg.Budget, Workers: env.Workers, Deadline: dl, Samples: 1})
+				}
+				addMu.Lock()
+				add(cfg, st)
+				addMu.Unlock()
 			}
-			dl := time.Now().Add(2 * time.Until(end) / time.Duration(len(all)-i))
-			if dl.After(end) {
-				dl = end
-			}
-			var st *explore.Stats
-			if isSock(cfg.Kind) {
-				st = explore.Run(sockBody(&cfg), explore.Options{Budget: cfg.Budget, Workers: env.Workers, Deadline: dl, Samples: 1,
-					Setup: func(w int) any { return &worker{ip: procIP(w + 1), port: 20000 + (w*131)%1000} }})
-			} else {
-				st = explore.Run(bubbleBody(t, &cfg), explore.Options{Budget: cfg.Budget, Workers: env.Workers, Deadline: dl, Samples: 1})
-			}
-			add(cfg, st)
 		}
+		var wg sync.WaitGroup
+		wg.Add(2)
+		go func() { defer wg.Done(); runList(bubbleConfigs(env.Thorough()), false) }()
+		go func() { defer wg.Done(); runList(sockConfigs(env.Thorough()), true) }()
+		wg.Wait()
 
 		keys := make([]string, 0, len(viol))
 		for k := range viol {
@@ -245,26 +273,29 @@ func TestCheck(t *testing.T) {
 				"(sender section: write{1..2} then abort | precommit then commit | precommit then abort; receiver section: read/length{1..2} then commit | abort) in every interleaving " +
 				"with at most <budget> deviations (a deviation = switching away from a participant in the middle of its section, or reading an empty mailbox: timeout or read left blocked while senders go on), " +
 				"followed by a drain; distinct = distinct observed operation/answer traces",
-			"samples":                samples,
-			"per_configuration":      perCfg,
-			"exhaustive":             exhaustive,
-			"cap_hit":                capHit,
-			"divergences":            divergences,
-			"discarded_env_timeout":  discarded,
-			"env_timeouts":           envTimeouts.Load(),
-			"spurious_aborts":        spuriousAborts.Load(),
-			"spurious_aborts_by_op":  spurious,
-			"unconfirmed_candidates": unconfirmed(viol),
-			"expected_aborts":        expectedAborts.Load(),
-			"socket_operations":      sockOps.Load(),
-			"overlapped_reads":       overlappedReads.Load(),
-			"commits_left_in_flight": commitsInFlight.Load(),
-			"stall_moves":            stallMoves.Load(),
-			"bubble_operations":      bubbleOps.Load(),
-			"bubble_ticks":           bubbleTicks.Load(),
-			"bubble_parked_ops":      bubbleBlocks.Load(),
-			"goroutines_at_end":      runtime.NumGoroutine(),
-			"not_covered":            "connection failure; goroutine interleavings inside handleConn; more than 2 senders / 1 receiver; more sections than the bounds",
+			"samples":                       samples,
+			"per_configuration":             perCfg,
+			"exhaustive":                    exhaustive,
+			"cap_hit":                       capHit,
+			"divergences":                   divergences,
+			"discarded_env_timeout":         discarded,
+			"env_timeouts":                  envTimeouts.Load(),
+			"spurious_aborts":               spuriousAborts.Load(),
+			"spurious_aborts_by_op":         spurious,
+			"unconfirmed_candidates":        unconfirmed(viol),
+			"expected_aborts":               expectedAborts.Load(),
+			"socket_operations":             sockOps.Load(),
+			"overlapped_reads":              overlappedReads.Load(),
+			"commit_acks_held_past_timeout": acksDelayed.Load(),
+			"of_which_sender_redialed":      acksResent.Load(),
+			"bulk_moves":                    bulkMoves.Load(),
+			"commits_left_in_flight":        commitsInFlight.Load(),
+			"stall_moves":                   stallMoves.Load(),
+			"bubble_operations":             bubbleOps.Load(),
+			"bubble_ticks":                  bubbleTicks.Load(),
+			"bubble_parked_ops":             bubbleBlocks.Load(),
+			"goroutines_at_end":             runtime.NumGoroutine(),
+			"not_covered":                   "connection failure; goroutine interleavings inside handleConn; more than 2 senders / 1 receiver; more sections than the bounds",
 		}
 		return res
 	})
